@@ -39,6 +39,9 @@ FLOORS = {"quick": {"sink_acks_checked": 30000, "sink_sequences": 5000, "sender_
                        "timeouts_seen": 30000, "fast_retransmits_seen": 2000, "lossfree_runs": 60,
                        "exhaustive_spaces": 40, "cc_TCPCubic": 10000, "cc_TCPReno": 10000}}
 KEYS = tuple(FLOORS["quick"].keys()) + ("unusual_config_runs", "sink_long_hole_sequences", "random_pattern_runs", "dup_transmissions", "drained_after_completion", "slow_path_runs")
+# floors for the situations added with the later rounds of seeded changes (evidence that they were really exercised)
+FLOORS["quick"].update({'slow_path_runs': 16})
+FLOORS["thorough"].update({'slow_path_runs': 100})
 MSS = 512
 
 
